@@ -661,6 +661,8 @@ def c05_scripts(rng, tier):
                     o["out"] = "max"
                 elif u < 0.4:
                     o["out_extra"] = rng.randrange(1, 2000)
+                if rng.random() < 0.2:
+                    o["out_fill"] = "garbage"      # a reused buffer: must be overwritten, never read or added to
                 ops.append(o)
         S.append(ops)
     # ---- FFT, without a twin (all variants share resample_unit: a defect there is the same in every
@@ -762,6 +764,8 @@ def c05_scripts(rng, tier):
                 o = {"op": "process", "id": i}
                 if rng.random() < 0.2:
                     o["out"] = "max"
+                if rng.random() < 0.2:
+                    o["out_fill"] = "garbage"
                 ops.append(o)
         S.append(ops)
     return S
